@@ -27,11 +27,14 @@ class ReachMonitor(object):
     ">= cap".
     """
 
-    def __init__(self, root, cap=200):
+    def __init__(self, root, cap=200, want_lines=True):
         self.root = os.path.realpath(root) + os.sep
         self.cap = cap
+        self.want_lines = want_lines
         self.counts = {}
+        self.lines = set()
         self._names = {}
+        self._files = {}
         self._tool = None
 
     def _name(self, code):
@@ -83,8 +86,31 @@ class ReachMonitor(object):
                 return DISABLE
             return None
 
+        lines = self.lines
+        files = self._files
+        root = self.root
+
+        def on_line(code, line):
+            # every (code object, line) location fires once: the callback always returns DISABLE
+            fn = code.co_filename
+            rel = files.get(fn)
+            if rel is None:
+                try:
+                    real = os.path.realpath(fn)
+                except Exception:
+                    real = fn
+                rel = real[len(root):] if real.startswith(root) else ""
+                files[fn] = rel
+            if rel:
+                lines.add((rel, line))
+            return DISABLE
+
         mon.register_callback(tool, mon.events.PY_START, on_start)
-        mon.set_events(tool, mon.events.PY_START)
+        events = mon.events.PY_START
+        if self.want_lines:
+            mon.register_callback(tool, mon.events.LINE, on_line)
+            events |= mon.events.LINE
+        mon.set_events(tool, events)
         return True
 
     def stop(self):
@@ -93,6 +119,8 @@ class ReachMonitor(object):
         mon = sys.monitoring
         mon.set_events(self._tool, 0)
         mon.register_callback(self._tool, mon.events.PY_START, None)
+        if self.want_lines:
+            mon.register_callback(self._tool, mon.events.LINE, None)
         mon.free_tool_id(self._tool)
         self._tool = None
 
